@@ -1860,12 +1860,12 @@ static Node *stmt(Token **rest, Token *tok) {
 }
 
 // compound-stmt = (typedef | declaration | stmt)* "}"
-static Node *compound_stmt(Token **rest, Token *tok) {
+// The items are declared in the current scope: the caller enters and
+// leaves the scope of the block.
+static Node *block_items(Token **rest, Token *tok) {
   Node *node = new_node(ND_BLOCK, tok);
   Node head = {};
   Node *cur = &head;
-
-  enter_scope();
 
   while (!equal(tok, "}")) {
     if (is_typename(tok) && !equal(tok->next, ":")) {
@@ -1894,10 +1894,15 @@ static Node *compound_stmt(Token **rest, Token *tok) {
     add_type(cur);
   }
 
-  leave_scope();
-
   node->body = head.next;
   *rest = tok->next;
+  return node;
+}
+
+static Node *compound_stmt(Token **rest, Token *tok) {
+  enter_scope();
+  Node *node = block_items(rest, tok);
+  leave_scope();
   return node;
 }
 
@@ -3602,7 +3607,8 @@ static Token *function(Token *tok, Type *basety, VarAttr *attr) {
   push_scope("__FUNCTION__")->var =
     new_string_literal(fn->name, array_of(ty_char, strlen(fn->name) + 1));
 
-  fn->body = compound_stmt(&tok, tok);
+  // The parameters and the outermost block of the body are one scope.
+  fn->body = block_items(&tok, tok);
   fn->locals = locals;
   leave_scope();
   resolve_goto_labels();
